@@ -14,6 +14,13 @@ for i in range(1, 21):
                 len(c["functions_under_contract"]), c.get("evaluations", 0), kinds, c["solver_time_s"], e["wall_s"]))
 rows.append("")
 rows.append("Distinct functions under contract over all properties: %d." % len(funcs))
+by_file = {}
+for f in sorted(funcs):
+    rel, q = f.split("::", 1)
+    by_file.setdefault(rel.replace("moclo/moclo/", ""), []).append(q)
+rows.append("")
+rows.append("Functions under contract (reached by at least one check in the run the table was generated from): " +
+            "; ".join("`%s` %s" % (k, ", ".join(v)) for k, v in sorted(by_file.items())) + ".")
 p = os.path.join(V, "DESIGN.md")
 s = open(p).read()
 new = "<!-- STATE-TABLE -->\n" + "\n".join(rows) + "\n<!-- /STATE-TABLE -->"
